@@ -10,7 +10,7 @@ from ..srcmodel import unparse, norm, walk_no_nested, calls_in
 from . import mergerules as mr
 from . import tr
 from .common import (cfg_of, node_obj, is_method_call, F3, product_dicts, fde_guard, inside_with_calling,
-                     facts_at, find_stmt_node, derives_from, get_kw, name_defs, recv_of)
+                     facts_at, find_stmt_node, derives_from, get_kw, name_defs, recv_of, only_reached_from)
 
 PROP = 'C07'
 DECIDED = [
@@ -625,7 +625,7 @@ def r7(repo, run):
             if isinstance(s, (ast.Assign, ast.AugAssign)):
                 tg = s.targets if isinstance(s, ast.Assign) else [s.target]
                 for t in tg:
-                    if isinstance(t, ast.Attribute) and t.attr == '_implicit_safe' and fi.qualname not in allowed:
+                    if isinstance(t, ast.Attribute) and t.attr == '_implicit_safe' and not only_reached_from(repo, fi.qualname, allowed):
                         run.violation('C07.R7', fi, unparse(s), 'write to _implicit_safe outside the checked flag-maintenance functions', node=s)
 
 
